@@ -140,6 +140,11 @@ def plan(tier, seed):
                 pre = ' and '.join(f'c{i} < 128' for i in range(n)) if name == 'meta' else ''
                 obs.append(Ob(name=f'{name}_{sn}_L{n}', factory='vt.pegbody:make_peg', spec=spec, params=[(f'c{i}', 0, UNI) for i in range(n)], budget=BUDGET[n], group='text:' + sn,
                               extra_pre=pre))
+    # indirect left recursion needs several growth rounds before the back-ends can diverge: operator chains with symbolic operators (shared with C03)
+    for k in ((2, 3) if tier == 'quick' else (2, 3, 4, 5)):
+        for nm in ('aliased', 'two_leftrec_rules'):
+            obs.append(Ob(name=f'chain_{nm}_k{k}', factory='vt.props.c03:make_assoc', spec={'grammar': nm, 'k': k, 'program': nm}, params=[(f'o{i}', 0, 3) for i in range(k)],
+                          budget=120, group='leftrec-chain', require_tags=('ok',)))
     obs.append(Ob(name='K_safe_name_1', factory='vt.props.c02:make_names', spec={'n': 1}, params=[(f'c{i}', 0, UNI) for i in range(2)], budget=120, group='kernel'))
     obs.append(Ob(name='K_safe_name_2', factory='vt.props.c02:make_names', spec={'n': 2}, params=[(f'c{i}', 0, UNI) for i in range(4)], budget=90 if tier == 'quick' else 1800, group='kernel'))
     progs = len(core) + len(TEXT_GRAMMARS)
